@@ -207,20 +207,29 @@ def gproject(o, depth=0):
     return ('other', t.__name__, B.scrub(repr(o))[:200])
 
 
-def _reachable(o, seen, depth=0):
+def _private(name):
+    name = str(name)
+    return name.startswith('_') and not (name.startswith('__') and name.endswith('__'))
+
+
+def _reachable(o, seen, depth=0, public_only=False):
+    """ids of everything reachable from o.  public_only: do not follow private ('_x') attributes of
+    objects - what hangs only below those is internal state of the object, not part of the value
+    the user wrote (containers the user passed in are registered separately, see Zoo.lit)"""
     if B._is_leaf(o) and not isinstance(o, (set, frozenset)) or depth > 30 or id(o) in seen:
         return
     seen.add(id(o))
     if isinstance(o, dict):
         for k, v in dict.items(o):
-            _reachable(k, seen, depth + 1)
-            _reachable(v, seen, depth + 1)
+            _reachable(k, seen, depth + 1, public_only)
+            _reachable(v, seen, depth + 1, public_only)
     elif isinstance(o, (list, tuple, set, frozenset)):
         for x in list(o):
-            _reachable(x, seen, depth + 1)
+            _reachable(x, seen, depth + 1, public_only)
     else:
-        for _, v in B._attr_items(o):
-            _reachable(v, seen, depth + 1)
+        for name, v in B._attr_items(o):
+            if not (public_only and _private(name)):
+                _reachable(v, seen, depth + 1, public_only)
 
 
 def mutate_result(res, owned):
@@ -282,6 +291,8 @@ LLG = lambda: OneShot([[1], FList([5]), ()])     # noqa: E731
 LT = lambda: [(1,), (), FTuple((2, 3))]    # noqa: E731
 LD = lambda: [{'a': 1}, {}, {'b': 2, 'a': 3}]    # noqa: E731
 LDS = lambda: [SubDict({'a': 0}), odict_reordered([('z', 1), ('a', 2)])]    # noqa: E731
+DN1 = lambda: {'a': 1, 'n': {'m': {}}}      # noqa: E731
+DN2 = lambda: {'a': 2, 'n': {}}             # noqa: E731
 S1 = lambda: 'ab'                     # noqa: E731
 N1 = lambda: 5                        # noqa: E731
 N0 = lambda: 0                        # noqa: E731
@@ -289,7 +300,7 @@ DICTS = [D1, D2, D3, D4, O1, O2]
 LISTS = [L1, L0, LZ, LG, LF, LS]
 
 
-def _entries(h, hf, hp, hfalse):
+def _entries(h, hf, hp, hfalse, hmk, lit):
     """name -> (spec factory result, target factories, options).  h: Hook spec, hf: identity
     callable, hp: callable answering True, hfalse: callable answering False"""
     E = collections.OrderedDict()
@@ -297,8 +308,8 @@ def _entries(h, hf, hp, hfalse):
     def add(name, spec, targets, **opt):
         E[name] = (spec, targets, opt)
     # -- core
-    add('invoke', Invoke(kw_items).constants(c=1).specs(a=(h, 'a')).star(kwargs='o').constants(d=[]), DICTS)
-    add('invoke-args', Invoke(as_list).specs((h, 'a'), 'b').star(args='b').constants(0, ''), DICTS)
+    add('invoke', Invoke(kw_items).constants(c=1).specs(a=(h, 'a')).star(kwargs='o').constants(d=lit([])), DICTS)
+    add('invoke-args', Invoke(as_list).specs((h, 'a'), 'b').star(args='b').constants(0, '', lit({})), DICTS)
     add('call', Call(as_list, args=(T['a'], Spec((h, 'b'))), kwargs={}), DICTS)
     add('call-kwargs', Call(kw_items, kwargs={'x': Spec((h, 'a')), 'y': [T['v']]}), DICTS)
     add('spec', Spec((h, {'r': 'a', 'lit': Val([])}), scope={'z': 5}), DICTS)
@@ -347,7 +358,7 @@ def _entries(h, hf, hp, hfalse):
     add('iter-takewhile-t', it().takewhile().all(), LISTS)
     add('iter-dropwhile', it().dropwhile(hfalse).all(), LISTS)
     add('iter-first', it().first(), LISTS)
-    add('iter-first-key', it().first(is_pos, default=[]), LISTS)
+    add('iter-first-key', it().first(is_pos, default=lit([])), LISTS)
     add('iter-bare', it(), LISTS, call=lambda sp, t, i: list(glom.glom(t, sp)))
     add('iter-chain', it().filter(hp).map(hf).chunked(2).limit(2).all(), LISTS)
     # -- grouping
@@ -364,6 +375,9 @@ def _entries(h, hf, hp, hfalse):
     add('group-merge', Group(Merge()), [LD, LDS, L0])
     add('group-limit', Group(Limit(2, [h])), LISTS)
     add('group-limit0', Group(Limit(0)), LISTS)
+    add('group-stop-dict', Group({Val(glom.STOP): [T]}), LISTS)
+    add('group-stop-limit', Group(Limit(3, {Val(glom.STOP): [h]})), LISTS)
+    add('group-dict-t', Group({T: [T]}), [L0, L1, LZ])
     add('group-limit-dict', Group(Limit(3, {hf: Limit(1)})), LISTS)
     # -- reduction
     add('fold', Fold((h, T), init=list, op=append_item), LISTS)
@@ -393,6 +407,8 @@ def _entries(h, hf, hp, hfalse):
     add('assign', Assign('o.k', Spec((h, 'a')), missing=dict), DICTS, mutates=True)
     add('assign-t', (h, Assign(T['o']['x'], [T['a']])), [D1, D2, D3], mutates=True)
     add('assign-missing', Assign('n.m.l', Val([]), missing=dict), [D1, D2, D3], mutates=True)
+    add('assign-missing-factory', Assign('n.m.l', Spec('a'), missing=hmk), [D1, DN1, DN2, D2], mutates=True)
+    add('assign-missing-t', Assign(T['n']['m']['l'], Val(1), missing=hmk), [D1, DN1, DN2], mutates=True)
     add('delete', (h, Delete('o.x', ignore_missing=True)), DICTS, mutates=True)
     add('delete-raise', Delete('o.x'), DICTS, mutates=True)
     return E
@@ -402,12 +418,35 @@ NOT_IN_ZOO = {'Sample': 'random by design: its outcome is not a function of targ
               'Inspect(echo=True / breakpoint / post_mortem)': 'writes to stdout / starts pdb'}
 
 
+class HookFactory:
+    """a `missing=` factory: runs the user code, then makes a new dict"""
+
+    def __init__(self, ctx):
+        self.ctx = ctx
+
+    def __call__(self):
+        self.ctx.hook()
+        return {}
+
+    def __repr__(self):
+        return 'HookFactory()'
+
+
 class Zoo:
     """one set of spec OBJECTS (built once, used for every evaluation of this Zoo)"""
 
     def __init__(self):
         self.ctx = ZCtx()
-        self.E = _entries(Hook(self.ctx), HookFn(self.ctx), HookFn(self.ctx, True), HookFn(self.ctx, False))
+        self.user_literals = set()
+        self._keep = []
+
+        def lit(x):
+            """a mutable container the USER passes to a constructor that stores it privately"""
+            self._keep.append(x)
+            _reachable(x, self.user_literals)
+            return x
+        self.E = _entries(Hook(self.ctx), HookFn(self.ctx), HookFn(self.ctx, True), HookFn(self.ctx, False),
+                          HookFactory(self.ctx), lit)
         for spec, _, _ in self.E.values():
             B.register_baseline(spec)
 
@@ -423,9 +462,13 @@ class Zoo:
         target = targets[ti]()
         call = opt.get('call') or (lambda sp, t, i: glom.glom(t, sp))
         before_t, before_s = B.snapshot(target), (B.snapshot(spec), B.scrub(repr(spec)))
-        owned = set()
+        # what the caller may NOT scribble over: the target, the public value of the spec and the
+        # containers the user passed to the constructors.  A container that glom created itself and keeps
+        # in a private attribute of a spec object is NOT the user's: if it is handed out as a result,
+        # scribbling over it shows in the next evaluation
+        owned = set(self.user_literals)
         _reachable(target, owned)
-        _reachable(spec, owned)
+        _reachable(spec, owned, public_only=True)
         rec = dict(name=name, ti=ti)
         try:
             res = call(spec, target, ti)
